@@ -66,7 +66,7 @@ def run_hist(hist, check_from=0):
         env = gdbenv.make_plugin()
         inf = gdbenv.Inferior()
         out, err = env['out'], env['err']
-        o_mark = e_mark = 0
+        o_mark, e_mark = len(out.buffer), len(err.buffer)      # whatever the plugin says when it starts is not about an event
         dead = False
         for n, ev in enumerate(hist):
             want_out = []
